@@ -38,7 +38,7 @@ def cells_equal(a, b):
 # three-valued meaning of a program on a row: True / False / None (free)
 def cond3(cell, op, const):
     if cell is None:
-        return None if op in ("!=", "not in") else False
+        return None if op in ("!=", "not in", "~") else False
     return FL.sat_cond(cell, op, const)        # None when the comparison raises
 
 
@@ -84,8 +84,144 @@ def check_rows(got_rows, full_rows, cols):
     return None
 
 
+def resolve_mask(m, sizes):
+    """a mask given as data: an explicit list, or {"rg_only": k} / {"rg_off": k} = select / unselect the whole row groups
+    with index % 2 == k (resolved against the row-group sizes of the written dataset)"""
+    if isinstance(m, dict):
+        out = []
+        for i, s in enumerate(sizes):
+            hit = (i % 2 == m.get("rg_only", m.get("rg_off")))
+            out += [hit if "rg_only" in m else not hit] * s
+        if m.get("hole") is not None and out:
+            out[m["hole"] % len(out)] = not out[m["hole"] % len(out)]
+        return out
+    return list(m)
+
+
+def judge_prog(got, rows, dnf, order):
+    """row-filtered result (flattened frame or None = nothing yielded) against the three-valued meaning of the program"""
+    want = [prog3(r, dnf) for r in rows]
+    must = [r["rid"] for r, w in zip(rows, want) if w is True]
+    free = set(r["rid"] for r, w in zip(rows, want) if w is None)
+    if got is None:
+        return "nothing was returned, rows %s satisfy the program" % must if must else None
+    if "rid" not in got.columns:
+        n = len(got)
+        return None if len(must) <= n <= len(must) + len(free) else "%d rows returned, %d satisfy the program (%d free)" % (n, len(must), len(free))
+    grow = frame_to_rows(got)
+    ids = [int(r["rid"]) for r in grow]
+    gs = set(ids)
+    lost = [x for x in must if x not in gs]
+    extra = [x for x in ids if x not in set(must) and x not in free]
+    if lost:
+        return "rows %s satisfy the program but are missing from %s" % (lost, ids)
+    if extra:
+        return "rows %s do not satisfy the program but were returned (%s)" % (extra, ids)
+    if len(gs) != len(ids):
+        return "rows returned twice: %s" % ids
+    if [x for x in order if x in gs] != ids:
+        return "rows come back in the order %s" % ids
+    return check_rows(grow, rows, list(got.columns))
+
+
+def describe_op(op):
+    k = op[0]
+    if k in ("mask", "mask+cols"):
+        return "to_pandas(row_filter=mask %s, columns=%s)" % (op[1], op[2])
+    if k == "prog":
+        return "to_pandas(filters=%s, row_filter=True, columns=%s)" % (FL.prog_to_filters(op[1]), op[2])
+    if k == "iter":
+        return "iter_row_groups(filters=%s, row_filter=True, columns=%s)" % (FL.prog_to_filters(op[1]), op[2])
+    if k == "count":
+        return "count(filters=%s, row_filter=True)" % (FL.prog_to_filters(op[1]),)
+    if k == "pruned":
+        return "to_pandas(filters=%s)" % (FL.prog_to_filters(op[1]),)
+    if k == "rgfile":
+        return "read_row_group_file(row_groups[%d %% n], row_filter=%s)" % (op[2], FL.prog_to_filters(op[1]))
+    return {"plain": "to_pandas()", "countplain": "count()", "len": "row_groups of the handle"}[k]
+
+
+def run_seq(spec, path, seq, rows, sizes, order):
+    """several masked / row-filtered reads and counts IN SEQUENCE ON ONE HANDLE, each compared with the specification
+    computed from the full read; -> {"bad": None | text, "step": k}"""
+    import numpy as np
+    import pandas as pd
+    from fastparquet import ParquetFile
+    pf = ParquetFile(path)
+    for k, op in enumerate(seq):
+        kind = op[0]
+        bad = None
+        prog = op[1] if kind in ("prog", "iter", "count", "pruned", "rgfile") else None
+        try:
+            if prog is not None:
+                filters = FL.prog_to_filters(prog)
+                dnf = [filters] if prog["flat"] else filters
+            if kind == "mask":
+                m = resolve_mask(op[1], sizes)
+                got = flat(pf.to_pandas(row_filter=np.array(m, dtype=bool), columns=None if op[2] is None else list(op[2])))
+                want_rows = [r for r, b in zip(rows, m) if b]
+                grow = frame_to_rows(got)
+                if len(grow) != len(want_rows):
+                    bad = "returned %d rows, the mask selects %d" % (len(grow), len(want_rows))
+                else:
+                    for g, w in zip(grow, want_rows):
+                        for c in got.columns:
+                            if not cells_equal(g[c], w[c]):
+                                bad = "column %s: got %r where the masked full read has %r (rid %r)" % (c, g[c], w[c], w["rid"])
+                                break
+                        if bad:
+                            break
+            elif kind == "prog":
+                got = flat(pf.to_pandas(filters=filters, row_filter=True, columns=None if op[2] is None else list(op[2])))
+                bad = judge_prog(got, rows, dnf, order)
+            elif kind == "iter":
+                parts = [flat(d) for d in pf.iter_row_groups(filters=filters, row_filter=True, columns=None if op[2] is None else list(op[2]))]
+                bad = judge_prog(pd.concat(parts, ignore_index=True) if parts else None, rows, dnf, order)
+            elif kind == "rgfile":
+                gi = op[2] % len(pf.row_groups)
+                rg = pf.row_groups[gi]
+                a = sum(sizes[:gi])
+                got = flat(pf.read_row_group_file(rg, pf.columns + list(pf.cats), None, index=pf._get_index(None), row_filter=[list(c) for c in filters] if prog["flat"] else
+                                                  [[list(c) for c in g] for g in filters], partition_meta=pf.partition_meta))
+                bad = judge_prog(got, rows[a:a + sizes[gi]], dnf, order)
+            elif kind == "count":
+                want = [prog3(r, dnf) for r in rows]
+                lo, hi = sum(1 for w in want if w is True), sum(1 for w in want if w is not False)
+                c = int(pf.count(filters=filters, row_filter=True))
+                if not lo <= c <= hi:
+                    bad = "returned %d, %d rows satisfy the program%s" % (c, lo, "" if lo == hi else " (%d more are free)" % (hi - lo))
+            elif kind == "pruned":
+                got = flat(pf.to_pandas(filters=filters))
+                ids = [int(x) for x in got["rid"].tolist()]
+                must = [r["rid"] for r in rows if prog3(r, dnf) is True]
+                if [x for x in must if x not in set(ids)]:
+                    bad = "rows %s satisfy the program but are missing from %s" % ([x for x in must if x not in set(ids)], ids)
+                elif [x for x in order if x in set(ids)] != ids:
+                    bad = "rows come back as %s" % ids
+            elif kind == "plain":
+                ids = [int(x) for x in flat(pf.to_pandas())["rid"].tolist()]
+                if ids != order:
+                    bad = "returned rids %s, the dataset holds %s" % (ids, order)
+            elif kind == "countplain":
+                c = int(pf.count())
+                if c != len(rows):
+                    bad = "returned %d, the dataset holds %d rows" % (c, len(rows))
+            elif kind == "len":
+                now = [rg.num_rows for rg in pf.row_groups]
+                if now != sizes:
+                    bad = "the handle now lists row groups of sizes %s, the dataset has %s" % (now, sizes)
+        except Exception as e:      # noqa
+            if prog is not None and has_wrong_type(spec, prog):
+                continue
+            bad = "raised %s: %s" % (type(e).__name__, str(e)[:160])
+        if bad:
+            return {"step": k, "bad": "step %d of %d on one handle, %s: %s" % (k + 1, len(seq), describe_op(op), bad)}
+    return {"bad": None, "step": None}
+
+
 def run_dataset(job):
-    spec, progs, masks, want_model = job
+    spec, progs, masks, want_model = job[:4]
+    seqs = job[4] if len(job) > 4 else []
     import numpy as np
     from fastparquet import ParquetFile
     from harness import pqfile
@@ -183,6 +319,7 @@ def run_dataset(job):
         # ---------------- caller-supplied masks
         for mask, cols in masks:
             o = {}
+            mask = resolve_mask(mask, out["sizes"])
             m = np.array(mask, dtype=bool)
             try:
                 pf2 = ParquetFile(path)
@@ -216,7 +353,7 @@ def run_dataset(job):
                             if g2 == gi and len(dp) > 1 and cname in allcols and (cols is None or cname in cols) and sum(dp) == n:
                                 cellsv = [rows[a + i][cname] for i in range(n)]
                                 pm.append({"col": cname, "rg": gi, "pages": dp, "mask": [bool(x) for x in sl],
-                                           "kind": "V2" if spec.get("v2") else ("V1nodefi" if spec["cols"].get(cname, {}).get("kind") in ("int", "bool") else "V1defi"),
+                                           "kind": "V2" if spec.get("v2") else ("V1nodefi" if spec["cols"].get(cname, {}).get("kind") in ("int", "bool", "uint") else "V1defi"),
                                            "nulls": [c is None for c in cellsv]})
                     a += n
                 o["page_models"] = pm[:8]
@@ -248,6 +385,8 @@ def run_dataset(job):
                                 enc.append("?%r" % (v,))
                         p_["impl"] = enc
             out["masks"].append(o)
+        # ---------------- call sequences on one handle
+        out["seqs"] = [run_seq(spec, path, seq, rows, out["sizes"], out["order"]) for seq in seqs]
         return out
     finally:
         shutil.rmtree(tmp, ignore_errors=True)
@@ -278,21 +417,21 @@ def has_wrong_type(spec, prog):
             k = spec["cols"][n]["kind"]
             cs = c if isinstance(c, list) else [c]
             for x in cs:
-                if k in ("str", "cat") and not isinstance(x, str):
+                if FL.text_kind(k) and not isinstance(x, (str, dict)):
                     return True
-                if k not in ("str", "cat") and isinstance(x, str):
+                if not FL.text_kind(k) and isinstance(x, str):
                     return True
             if k == "cat" and op in ("<", "<=", ">", ">="):
                 return True        # pandas refuses to order an unordered categorical
     return False
 
 
-def gen_job(rng, v2=False, want_model=True, nprog=20, nmask=6):
-    spec = FL.gen_dataset(rng, sizes=[1, 2, 3, 5, 8, 12], cat=(rng.random() < 0.3))
+def gen_job(rng, v2=False, want_model=True, nprog=20, nmask=6, nseq=3, flavour=None):
+    spec = FL.gen_dataset(rng, sizes=[1, 2, 3, 5, 8, 12], cat=(rng.random() < 0.3)) if flavour is None else FL.gen_dataset_w3(rng, flavour)
     if "c" in spec["cols"]:
         # categorical statistics are C04's open defect: keep them out of the pruning
         spec["stats"] = [c for c in spec["cols"] if c != "c" and c not in spec["partition_on"]] if spec["stats"] is not False else False
-    spec["page_size"] = rng.choice([None, 16, 24, 40, 64])
+    spec["page_size"] = rng.choice([None, 16, 24, 40, 64]) if flavour != "long" else None
     spec["compression"] = rng.choice([None, None, "SNAPPY", "GZIP", "ZSTD"])
     cand = [c for c in spec["cols"] if c != "rid" and c not in spec["partition_on"] and spec["cols"][c]["kind"] == "str"
             and all(v is not None for v in spec["cols"][c]["values"])]
@@ -303,7 +442,7 @@ def gen_job(rng, v2=False, want_model=True, nprog=20, nmask=6):
     names = [c for c in spec["cols"] if c != "rid"]
     progs = []
     for _ in range(nprog):
-        prog = FL.gen_program(rng, spec, ch, wrong_type=0.02)
+        prog = FL.gen_program(rng, spec, ch, wrong_type=0.02, tilde=0.25)
         r = rng.random()
         cols = None if r < 0.5 else (["rid"] if r < 0.7 else ["rid"] + rng.sample(names, rng.randrange(1, len(names) + 1)))
         progs.append((prog, cols))
@@ -311,6 +450,12 @@ def gen_job(rng, v2=False, want_model=True, nprog=20, nmask=6):
     for _ in range(nmask):
         kind = rng.choice(["rand", "rand", "first-off", "last-off", "alt", "one", "all", "none", "block"])
         n = spec["n"]
+        if rng.random() < 0.15:
+            # whole row groups selected / unselected (resolved against the written row groups)
+            r = rng.random()
+            masks.append(({rng.choice(["rg_only", "rg_off"]): rng.randrange(2), "hole": rng.randrange(n) if rng.random() < 0.3 else None},
+                          None if r < 0.6 else ["rid"] + rng.sample(names, rng.randrange(1, len(names) + 1))))
+            continue
         if kind == "rand":
             p = rng.choice([0.2, 0.5, 0.8])
             m = [rng.random() < p for _ in range(n)]
@@ -334,7 +479,49 @@ def gen_job(rng, v2=False, want_model=True, nprog=20, nmask=6):
         r = rng.random()
         cols = None if r < 0.6 else ["rid"] + rng.sample(names, rng.randrange(1, len(names) + 1))
         masks.append((m, cols))
-    return spec, progs, masks, want_model
+    # call sequences on ONE handle: 4-6 masked / row-filtered reads, counts and plain reads
+    seqs = []
+    twin_cols = [c for c in ("i", "n", "f", "rid") if c in spec["cols"] and c not in spec["partition_on"] and c != spec.get("index")]
+    for _ in range(nseq):
+        seq = []
+        if twin_cols and rng.random() < 0.4:
+            # DIFFERENT programs in a row on one handle whose constants are containers that print alike: numpy arrays /
+            # pandas Index / long lists with the deciding values in the abbreviated middle, floats that differ in the 12th digit
+            cname = rng.choice(twin_cols)
+            present = sorted({v for v in spec["cols"][cname]["values"] if v is not None})
+            isf = spec["cols"][cname]["kind"] == "float"
+            a = rng.choice(present) if present else 1
+            b = rng.choice([x for x in present if x != a] or [a + 1])
+            form = rng.choice(["np", "np", "index", "list", "tuple"])
+            if isf and rng.random() < 0.5:
+                va, vb, pad = [a, 77.0], [a + 1e-12, 77.0], 0          # differ after the 8th significant digit
+            else:
+                va, vb, pad = [a], [b], rng.choice([0, 150, 1100, 1100])
+            mk = lambda vals: {"flat": True, "groups": [[[cname, rng.choice(["in", "in", "not in"]), {"arr": {"form": form, "vals": vals, "pad": pad, "float": isf}}]]]}
+            pa, pb = mk(va), mk(vb)
+            pb["groups"][0][0][1] = pa["groups"][0][0][1]
+            for pr in (pa, pb, pa):
+                kind = rng.choice(["prog", "prog", "count", "iter"])
+                r = rng.random()
+                cols = None if r < 0.6 else ["rid"] + rng.sample(names, rng.randrange(1, len(names) + 1))
+                seq.append([kind, pr, cols] if kind != "count" else [kind, pr])
+        for _ in range(rng.choice([4, 5, 6])):
+            kind = rng.choice(["mask", "mask", "mask", "prog", "prog", "iter", "count", "count", "pruned", "plain", "countplain", "len", "rgfile"])
+            r = rng.random()
+            cols = None if r < 0.6 else ["rid"] + rng.sample(names, rng.randrange(1, len(names) + 1))
+            if kind == "mask":
+                seq.append(["mask", masks[rng.randrange(len(masks))][0] if masks and rng.random() < 0.5 else
+                            {rng.choice(["rg_only", "rg_off"]): rng.randrange(2), "hole": rng.randrange(spec["n"]) if rng.random() < 0.3 else None}, cols])
+            elif kind in ("prog", "iter"):
+                seq.append([kind, FL.gen_program(rng, spec, ch, wrong_type=0, tilde=0.25), cols])
+            elif kind in ("count", "pruned"):
+                seq.append([kind, FL.gen_program(rng, spec, ch, wrong_type=0)])
+            elif kind == "rgfile":
+                seq.append([kind, FL.gen_program(rng, spec, ch, wrong_type=0), rng.randrange(8)])
+            else:
+                seq.append([kind])
+        seqs.append(seq)
+    return spec, progs, masks, want_model, seqs
 
 
 def run(ctx):
@@ -392,11 +579,18 @@ def run(ctx):
     ncorpus = len(jobs)
     for _ in range(n_ds):
         jobs.append(gen_job(rng, v2=(rng.random() < 0.35), nprog=20 if quick else 40, nmask=6 if quick else 10))
+    # wave-3 datasets of C05 (tz-aware timestamps against constants in other zones, partition keys at integer representation
+    # boundaries, one-sided / foreign statistics, long text) under row-level filtering
+    for flavour, cnt in (("tz", 10 if quick else 60), ("bigpart", 6 if quick else 40), ("onesided", 6 if quick else 40), ("long", 4 if quick else 30)):
+        for _ in range(cnt):
+            jobs.append(gen_job(rng, v2=(rng.random() < 0.35), nprog=16 if quick else 40, nmask=3, nseq=2, flavour=flavour))
     results = C.pmap(run_dataset, jobs, init=_init, nproc=min(8, os.cpu_count() or 4), job_timeout=300)
 
     mexprs, mmeta = [], []
     pexprs, pmeta = [], []
-    for (spec, progs, masks, want_model), res in zip(jobs, results):
+    for job, res in zip(jobs, results):
+        spec, progs, masks, want_model = job[:4]
+        seqs = job[4] if len(job) > 4 else []
         if "__crashed__" not in res:
             ctx.count("dataset.pages", ("v2" if spec.get("v2") else "v1") + ("/multi" if (res.get("max_pages") or 0) > 1 else "/single"))
         if "__crashed__" in res:
@@ -408,6 +602,7 @@ def run(ctx):
             ctx.case({"spec": spec, "error": res["error"]}, trivial=True)
             continue
         ctx.count("dataset.scheme", spec["scheme"] + ("+parts" if spec["partition_on"] else ""))
+        ctx.count("dataset.flavour", spec.get("flavour", "random"))
         for (prog, cols), o in zip(progs, res["progs"]):
             case = {"spec": spec, "prog": prog, "columns": cols}
             for g in prog["groups"]:
@@ -446,7 +641,9 @@ def run(ctx):
                 problems.append(("count-differs", "count(filters, row_filter=True) = %s but the read returned %s rows" % (o["count"], o["len"])))
             if problems:
                 ctx.fail(classify(spec, prog, problems[0][0], cols), case, "; ".join(p[1] for p in problems))
-            if "model" in o and has_wrong_type(spec, prog):
+            if "model" in o and any(op == "~" for g in prog["groups"] for _, op, _ in g):
+                ctx.count("model.skipped", "'~' operator (oracle only)")
+            elif "model" in o and has_wrong_type(spec, prog):
                 # a constant of another type than the column (text against an integer-valued directory level, ...): how the
                 # code types such a pair is not modelled row-wise (C08's typing rules decide); outside the grammar
                 ctx.count("model.skipped", "wrong-typed constant, read did not raise")
@@ -464,8 +661,20 @@ def run(ctx):
                     ctx.fail(classify(spec, fo["prog"], "filters+mask raised:" + fo["raised"], None), case, "to_pandas(filters, row_filter=mask) raised %s: %s" % (fo["raised"], fo["raised_msg"]))
             elif fo.get("bad"):
                 ctx.fail(classify(spec, fo["prog"], "filters+mask wrong-rows", None), case, fo["bad"])
+        for seq, o in zip(seqs, res.get("seqs", [])):
+            case = {"spec": spec, "seq": seq}
+            ctx.case(case, trivial=False)
+            ctx.count("sequence.length", len(seq))
+            for op in seq:
+                ctx.count("sequence.op", op[0] + ("/container constant" if len(op) > 1 and isinstance(op[1], dict) and "groups" in op[1]
+                                                  and any(isinstance(c[2], dict) and "arr" in c[2] for g in op[1]["groups"] for c in g) else ""))
+            if o["bad"]:
+                d = classify(spec, None, "sequence-on-one-handle", None)
+                d["step_kind"] = seq[o["step"]][0]
+                ctx.fail(d, case, o["bad"])
         for (mask, cols), o in zip(masks, res["masks"]):
             case = {"spec": spec, "mask": mask, "columns": cols}
+            mask = resolve_mask(mask, res["sizes"])
             ctx.count("mask.density", "0" if not any(mask) else ("1" if all(mask) else "partial"))
             ctx.case(case, trivial=(not any(mask)))
             if "raised" in o:
@@ -526,6 +735,17 @@ def replay(rep):
     _init()
     case = rep["case"]
     spec = case["spec"]
+    if "seq" in case:
+        res = run_dataset((spec, [], [], False, [case["seq"]]))
+        if res["error"]:
+            print("dataset could not be written/read:", res["error"])
+            return 1
+        print("row-group sizes:", res["sizes"])
+        for k, op in enumerate(case["seq"]):
+            print("  step %d: %s" % (k + 1, describe_op(op)[:300]))
+        o = res["seqs"][0]
+        print("PROPERTY FAILS: " + o["bad"] if o["bad"] else "property holds on this case")
+        return 1 if o["bad"] else 0
     if "prog" in case:
         res = run_dataset((spec, [(case["prog"], case.get("columns"))], [], False))
     else:
